@@ -59,7 +59,7 @@ GROUPS = {
     # reactive components, removal and despawn polling, accessors: C08 C14 C01 C03 C18
     "comp": dict(
         subst=dict(Bundles="B_Comp", InitOps="Init_Comp"),
-        mc_quick=C(NSys=2, NEnt=2, NVal=2, OpNames={"ins", "set", "rm", "desp", "trig"}, MaxOps=2, Budget=3, MaxSteps=3,
+        mc_quick=C(NSys=2, NEnt=2, NVal=2, OpNames={"ins", "set", "rm", "desp", "trig", "resset"}, MaxOps=2, Budget=3, MaxSteps=3,
                    StepKinds={"ops", "poll"}, Features={"coarse"}),
         mc_thorough=C(NSys=2, NEnt=2, NVal=2, OpNames={"ins", "mut", "set", "smut", "sset", "rm", "desp", "trig", "noreact"}, MaxOps=2, Budget=4, MaxSteps=3,
                       StepKinds={"ops", "poll", "clear"}),
@@ -70,7 +70,7 @@ GROUPS = {
                  alphabet=["ins", "mut", "set", "noreact", "smut", "sset", "sno", "rm", "xrm", "desp", "xdesp", "trig", "reg", "revoke", "run", "resset", "resmut", "resno",
                            "res", "once", "probe", "sysevsig"],
                  trigs=["ins", "mut", "rem", "eins", "emut", "erem", "desp", "res"], max_ops=3, budget=12, steps=4, ntypes=2, nvals=2, p_gcpoll=30, p_frame=30, p_direct=15,
-                 init=[["ins", 1, 1, 1], ["ins", 2, 1, 1], ["reg", "persistent", 1, [["mut", 1], ["rem", 1], ["eins", 2, 1]], 0],
+                 init=[["ins", 1, 1, 1], ["ins", 2, 1, 1], ["reg", "persistent", 1, [["mut", 1], ["rem", 1], ["eins", 2, 1], ["res", 1]], 0],
                        ["reg", "cleanup", 2, [["ins", 1], ["erem", 1, 1], ["desp", 2]], 0]]),
     ),
     # everything mixed: events to a listener of all kinds while components are removed (C03, C08, C18)
